@@ -37,6 +37,10 @@ func NewProof(hash *hash.Hash, public curve.Point, private curve.Scalar, gen cur
 
 	a := NewRandomness(rand.Reader, group, gen)
 	z := a.Prove(hash, public, private, gen)
+	if z == nil {
+		// Prove refuses a zero secret or an identity public key
+		return nil
+	}
 	return &Proof{
 		C: *a.Commitment(),
 		Z: *z,
